@@ -30,14 +30,14 @@ type thread struct {
 type killThread struct{}
 
 type parState struct {
-	th       [2]*thread
-	cur      int
-	switches int
-	max      int
-	abort    interface{} // panic value to be re-raised on the main goroutine
-	kill     bool
-	killed   chan struct{}
-	log      []byte
+	th        [2]*thread
+	cur       int
+	switches  int
+	max       int
+	abort     interface{} // panic value to be re-raised on the main goroutine
+	kill      bool
+	killed    chan struct{}
+	log       []byte
 	poolYield bool
 	blocked   map[int]bool
 }
